@@ -130,62 +130,4 @@ example : ¬ (Keccak.newKeccak256 ([2] : List (ZMod 7)) : SatM 7 _) (fun _ => Tr
 example : 8 ∣ ([] : List Bool).length := by decide
 example (n : ℕ) : 8 ∣ (List.replicate (8 * n) true).length := by simp
 
-/-! ### concrete digests, evaluated in the kernel
-
-The reference is evaluated through a 64-bit-word implementation proved equal to it
-(`Proofs/Keccak/Words.lean`, `sponge_eq_spongeW256`); `decide +kernel` then runs on GMP naturals.
-Known answers: Keccak-256("") and SHA3-256("") (well known), SHA3-256 of 200 bytes `0xa3` (NIST
-example "SHA3-256, 1600-bit message", two blocks), and 135 zero bytes (padding is the single byte
-`0x81` resp. `0x86`). -/
-
-set_option maxRecDepth 100000 in
-example : KeccakRef.keccak256 [] =
-    [0xc5, 0xd2, 0x46, 0x01, 0x86, 0xf7, 0x23, 0x3c, 0x92, 0x7e, 0x7d, 0xb2, 0xdc, 0xc7, 0x03, 0xc0,
-     0xe5, 0x00, 0xb6, 0x53, 0xca, 0x82, 0x27, 0x3b, 0x7b, 0xfa, 0xd8, 0x04, 0x5d, 0x85, 0xa4, 0x70] := by
-  rw [Proofs.Keccak.keccak256_eq_W]; decide +kernel
-
-set_option maxRecDepth 100000 in
-example : KeccakRef.sha3_256 [] =
-    [0xa7, 0xff, 0xc6, 0xf8, 0xbf, 0x1e, 0xd7, 0x66, 0x51, 0xc1, 0x47, 0x56, 0xa0, 0x61, 0xd6, 0x62,
-     0xf5, 0x80, 0xff, 0x4d, 0xe4, 0x3b, 0x49, 0xfa, 0x82, 0xd8, 0x0a, 0x4b, 0x80, 0xf8, 0x43, 0x4a] := by
-  rw [Proofs.Keccak.sha3_256_eq_W]; decide +kernel
-
-set_option maxRecDepth 100000 in
-example : KeccakRef.sha3_256 (List.replicate 200 0xa3) =
-    [0x79, 0xf3, 0x8a, 0xde, 0xc5, 0xc2, 0x03, 0x07, 0xa9, 0x8e, 0xf7, 0x6e, 0x83, 0x24, 0xaf, 0xbf,
-     0xd4, 0x6c, 0xfd, 0x81, 0xb2, 0x2e, 0x39, 0x73, 0xc6, 0x5f, 0xa1, 0xbd, 0x9d, 0xe3, 0x17, 0x87] := by
-  rw [Proofs.Keccak.sha3_256_eq_W]; decide +kernel
-
-set_option maxRecDepth 100000 in
-example : KeccakRef.keccak256 (List.replicate 135 0) =
-    [0x29, 0xe3, 0x70, 0x4f, 0xee, 0xca, 0x7f, 0xb9, 0xba, 0x22, 0x9f, 0x0f, 0xa0, 0x4d, 0x9b, 0x36,
-     0x44, 0x9c, 0xf3, 0xad, 0x6e, 0x1d, 0x85, 0xd9, 0xcf, 0xff, 0x3a, 0x10, 0xdf, 0x9a, 0xbc, 0x3e] := by
-  rw [Proofs.Keccak.keccak256_eq_W]; decide +kernel
-
-set_option maxRecDepth 100000 in
-example : KeccakRef.sha3_256 (List.replicate 135 0) =
-    [0x7d, 0x08, 0x0d, 0x7b, 0xa9, 0x78, 0xa7, 0x5c, 0x8a, 0x7d, 0x1f, 0x9b, 0xe5, 0x66, 0xc8, 0x59,
-     0x08, 0x45, 0x09, 0xc9, 0xc2, 0xb4, 0x92, 0x84, 0x35, 0xc2, 0x25, 0xd5, 0x77, 0x7d, 0x98, 0xe3] := by
-  rw [Proofs.Keccak.sha3_256_eq_W]; decide +kernel
-
-/-- Keccak-256 of the empty message, as bits -/
-theorem keccak256Bits_nil : KeccakRef.keccak256Bits [] = KeccakRef.bytesToBits
-    [0xc5, 0xd2, 0x46, 0x01, 0x86, 0xf7, 0x23, 0x3c, 0x92, 0x7e, 0x7d, 0xb2, 0xdc, 0xc7, 0x03, 0xc0,
-     0xe5, 0x00, 0xb6, 0x53, 0xca, 0x82, 0x27, 0x3b, 0x7b, 0xfa, 0xd8, 0x04, 0x5d, 0x85, 0xa4, 0x70] := by
-  unfold KeccakRef.keccak256Bits
-  rw [Proofs.Keccak.sponge_eq_spongeW256]
-  decide +kernel
-
-/-- the whole chain on a concrete input: the circuit `NewKeccak256` on the empty message is
-satisfiable, and only with the bits of `c5d24601…5d85a470` as output -/
-example (o : List (ZMod p)) :
-    (Keccak.newKeccak256 ([] : List (ZMod p)) : SatM p _) (· = o) ↔ o = (KeccakRef.bytesToBits
-    [0xc5, 0xd2, 0x46, 0x01, 0x86, 0xf7, 0x23, 0x3c, 0x92, 0x7e, 0x7d, 0xb2, 0xdc, 0xc7, 0x03, 0xc0,
-     0xe5, 0x00, 0xb6, 0x53, 0xca, 0x82, 0x27, 0x3b, 0x7b, 0xfa, 0xd8, 0x04, 0x5d, 0x85, 0xa4, 0x70]).map Sat.embed := by
-  have h := keccak_output_unique (p := p) [] (by decide) o
-  rw [keccak256Bits_nil] at h
-  exact h
-
-#print axioms keccak256Bits_nil
-
 end Smtb.Properties.C04
